@@ -78,6 +78,8 @@ func alphabetC10(cfg Cfg) []Op {
 		{Op: "tick"},
 		{Op: "flushall"},
 		{Op: "flushallc"},
+		{Op: "flush", Slot: 0},
+		{Op: "flushc", Slot: 1},
 		{Op: "reopen"},
 		{Op: "reopennc"},
 		{Op: "repair"},
